@@ -377,7 +377,7 @@ static int sub_agrees(char tg, const Toks& sub, const std::vector<OD>* ex, bool 
     if (it != g_sub_memo.end()) return it->second;
     int res = 2;
     if (ex) { Real r = eval_real(tg, sub); res = agree(r, *ex, random) ? 1 : 0; }
-    if (g_sub_memo.size() < 2000000) g_sub_memo.emplace(std::move(k), res);
+    if (g_sub_memo.size() < 200000) g_sub_memo.emplace(std::move(k), res);
     return res;
 }
 
@@ -574,10 +574,13 @@ int main(int argc, char** argv) {
     vf::Run run("C17", argc, argv); R = &run;
     World world; W = &world;
     run.max_samples = 10;
-    run.rule = "every infix chain a o1 b ... (<= 2 operators over the full typed operand alphabets, 3 over reduced ones; thorough: 3 full / 4 reduced) with o in {+ - * / ^ < <= > >= == != UADD UMUL UMIN UMAX}, "
-               "every placement of one parenthesis pair, unary minus at expression start / after '(', every registered one-argument function applied to one operand or to the parenthesised group; "
-               "operands {2, 3, 0.5, FOPR, WOPR, WOPR 'P*', WOPR P1, WWPR} for WUX, {2, 3, 0.5, FOPR, GOPR, GOPR G1, GWPR} for GUX, scalars for FUX, plus an undefined scalar and an all-undefined set (<= 1 operator); "
-               "oracle: precedence-climbing reference parser + element-wise evaluator written from the statement; distinct = distinct (result vector, tree shape)";
+    run.rule = std::string("every infix chain a o1 b o2 c ... with o in {+ - * / ^ < <= > >= == != UADD UMUL UMIN UMAX}, every placement of one parenthesis pair, unary minus at expression start or after '(' (<= 2 operators), ")
+        + "and every registered one-argument function (24) applied to one operand or to the parenthesised group; "
+        + "operands WUX: {2, 3, 0.5, FOPR, WOPR, WOPR 'P*', WOPR P1, WWPR}, GUX: {2, 3, 0.5, FOPR, GOPR, GOPR G1, GWPR}, FUX: {2, 3, 0.5, FOPR, WOPR P1, GOPR G1} (+ sets inside reductions), "
+        + "plus an undefined scalar (WOPR P2 / GOPR G2) and an all-undefined set (WOPR 'X*') for <= 1 operator; "
+        + (run.quick() ? "bounds: <= 2 operators over the full alphabets; 3 operators over {2,3,0.5} (FUX) and {0.5,WOPR,WWPR} (WUX); functions with <= 1 operator (full) and 2 operators over {0.5,WOPR,WWPR}; "
+                       : "bounds: <= 2 operators over the full alphabets; 3 operators over {2,0.5,FOPR,WOPR,WWPR} (WUX), {0.5,FOPR,GOPR,GWPR} (GUX), {2,3,0.5,FOPR,WOPR P1} (FUX); 4 operators over {2,3,0.5} without and {3,0.5} with parentheses; functions with <= 2 operators; ")
+        + "oracle: precedence-climbing reference parser + element-wise evaluator written from the statement; distinct = distinct (result vector, tree shape)";
     run.assumptions = {
         "reference parser/evaluator in the harness (rank list of the statement; unary minus binds to the following atom; same-kind U-operator chains are associative)",
         "reduction/elemental definitions: SUM, AVEA, AVEG, AVEH, MAX, MIN, NORM1, NORM2, NORMI, PROD over defined elements (undefined if none); ABS, EXP, LN, LOG, NINT elementwise; DEF/UNDEF/IDV on definedness; SORTA/SORTD ranks among defined elements; RANDN/RANDU/RRNDN/RRNDU checked for definedness only",
@@ -600,7 +603,9 @@ int main(int argc, char** argv) {
     const std::vector<Toks> Num3{{"2"}, {"3"}, {"0.5"}};
     const std::vector<Toks> W3{{"0.5"}, {"WOPR"}, {"WWPR"}};
     const std::vector<Toks> W6{{"2"}, {"0.5"}, {"FOPR"}, {"WOPR"}, {"WOPR", "P1"}, {"WWPR"}};
-    const std::vector<Toks> G6{{"2"}, {"0.5"}, {"FOPR"}, {"GOPR"}, {"GOPR", "G1"}, {"GWPR"}};
+    const std::vector<Toks> W5{{"2"}, {"0.5"}, {"FOPR"}, {"WOPR"}, {"WWPR"}};
+    const std::vector<Toks> G4{{"0.5"}, {"FOPR"}, {"GOPR"}, {"GWPR"}};
+    const std::vector<Toks> Num2{{"3"}, {"0.5"}};
     const std::vector<Toks> F5{{"2"}, {"3"}, {"0.5"}, {"FOPR"}, {"WOPR", "P1"}};
     std::vector<Toks> Wext = Wbase; Wext.push_back({"WOPR", "P2"}); Wext.push_back({"WOPR", "'X*'"});
     std::vector<Toks> Gext = Gbase; Gext.push_back({"GOPR", "G2"});
@@ -619,17 +624,19 @@ int main(int argc, char** argv) {
     regs.push_back({"func-ext:G", 'G', Gext, 0, 1, true, true, 1, {}});
     regs.push_back({"func-ext:F", 'F', Fext, 0, 1, true, true, 1, Fsets});
     if (run.quick()) {
-        regs.push_back({"deep3:F", 'F', Num3, 3, 3, true, true, 0, {}});
+        regs.push_back({"deep3:F", 'F', Num3, 3, 3, true, false, 0, {}});
         regs.push_back({"deep3:W", 'W', W3, 3, 3, true, false, 0, {}});
         regs.push_back({"func2:W", 'W', W3, 2, 2, true, false, 1, {}});
     } else {
-        regs.push_back({"deep3:W", 'W', W6, 3, 3, true, false, 0, {}});
-        regs.push_back({"deep3:G", 'G', G6, 3, 3, true, false, 0, {}});
-        regs.push_back({"deep3:F", 'F', F5, 3, 3, true, true, 0, {}});
-        regs.push_back({"deep4:F", 'F', Num3, 4, 4, true, false, 0, {}});
-        regs.push_back({"func2:W", 'W', Wbase, 2, 2, true, false, 1, {}});
-        regs.push_back({"func2:G", 'G', Gbase, 2, 2, true, false, 1, {}});
-        regs.push_back({"func2:F", 'F', Fbase, 2, 2, true, false, 1, Fsets});
+        regs.push_back({"deep3:W", 'W', W5, 3, 3, true, false, 0, {}});
+        regs.push_back({"deep3:G", 'G', G4, 3, 3, true, false, 0, {}});
+        regs.push_back({"deep3:F", 'F', F5, 3, 3, true, false, 0, {}});
+        regs.push_back({"deep3m:F", 'F', Num3, 3, 3, true, true, 0, {}});
+        regs.push_back({"deep4:F", 'F', Num3, 4, 4, false, false, 0, {}});
+        regs.push_back({"deep4p:F", 'F', Num2, 4, 4, true, false, 0, {}});
+        regs.push_back({"func2:W", 'W', W6, 2, 2, true, false, 1, {}});
+        regs.push_back({"func2:G", 'G', G4, 2, 2, true, false, 1, {}});
+        regs.push_back({"func2:F", 'F', F5, 2, 2, true, false, 1, Fsets});
     }
     const char* only = std::getenv("C17_ONLY");                 // development aid: run one regime
     for (auto& g : regs) { if (only && std::string(g.name) != only) continue; run_regime(g); if (run.timed_out()) break; }
